@@ -5094,3 +5094,153 @@ func containsFn(fs []*ssa.Function, g *ssa.Function) bool {
 	}
 	return false
 }
+
+// ---------------------------------------------------------------------------
+// R17i NEXT-OFFSET-IS-NOT-A-COUNT (C02, C03): the next offset a segment's index object answers with is
+// never computed from the NUMBER of its items: after a delete a segment has fewer items than offsets.
+func (p *Prog) nextOffsetIsNotACount() []Ob {
+	r := p.R
+	ob := Ob{Rule: "R17", Inst: "i:next-offset-is-not-a-count", Props: []string{"C02", "C03"}, Pos: "-", Nontrivial: true}
+	gno := p.methodOf(r.ReaderIndex, "GetNextOffset")
+	var fld *types.Var
+	if gno != nil {
+		for _, rt := range returnsOf(gno) {
+			if v := returnOperand(rt, 0); v != nil {
+				if f, _ := loadedField(canon(v)); f != nil {
+					fld = f
+				}
+			}
+		}
+	}
+	if fld == nil {
+		ob.Status, ob.Msg = Undecided, "the field a closed segment's index object answers GetNextOffset from was not found"
+		return []Ob{ob}
+	}
+	n := 0
+	var bad []string
+	for _, fn := range p.Funcs {
+		if !srcFunc(fn) {
+			continue
+		}
+		for _, b := range fn.Blocks {
+			for _, ins := range b.Instrs {
+				st, ok := ins.(*ssa.Store)
+				if !ok {
+					continue
+				}
+				fa, ok := st.Addr.(*ssa.FieldAddr)
+				if !ok || fieldVarOfAddr(fa) != fld {
+					continue
+				}
+				n++
+				seen := map[ssa.Value]bool{}
+				var walk func(v ssa.Value, d int)
+				walk = func(v ssa.Value, d int) {
+					if v == nil || seen[v] || d > 10 {
+						return
+					}
+					seen[v] = true
+					switch x := v.(type) {
+					case *ssa.Phi:
+						for _, e := range x.Edges {
+							walk(e, d+1)
+						}
+					case *ssa.BinOp:
+						walk(x.X, d+1)
+						walk(x.Y, d+1)
+					case *ssa.Convert:
+						walk(x.X, d+1)
+					case *ssa.ChangeType:
+						walk(x.X, d+1)
+					case *ssa.Call:
+						if isBuiltinCall(x.Common(), "len") || isBuiltinCall(x.Common(), "cap") {
+							bad = append(bad, fmt.Sprintf("%s: the next offset is computed from %s", p.at(st), x.String()))
+						}
+					}
+				}
+				walk(st.Val, 0)
+			}
+		}
+	}
+	switch {
+	case n == 0:
+		ob.Status, ob.Msg = Undecided, "no store to the next-offset field of a closed segment's index object found"
+	case len(bad) > 0:
+		ob.Pos = strings.SplitN(bad[0], ": ", 2)[0]
+		ob.Status, ob.Msg, ob.Path = Violated, "a segment's next offset is derived from how many items it has: after a delete in the segment that is less than the offsets it spans, so a read-only handle reports an end that lies inside the live messages", uniqSorted(bad)
+	default:
+		ob.Status, ob.Msg = Discharged, fmt.Sprintf("%d store(s) to %s, none derived from a length", n, p.fieldLabel(fld))
+	}
+	return []Ob{ob}
+}
+
+// ---------------------------------------------------------------------------
+// R34b DIR-IS-NOT-A-PREFIX (C20, C01): a segment's directory is kept as the caller spelled it (R34)
+// while its file paths went through filepath.Join, which cleans them: the directory string is
+// therefore not, in general, a textual prefix of the file paths. No code treats it as one.
+func (p *Prog) dirIsNotAPrefix() []Ob {
+	ob := Ob{Rule: "R34", Inst: "b:dir-is-not-a-prefix", Props: []string{"C20", "C01"}, Pos: "-", Nontrivial: true}
+	isSeg := func(v ssa.Value, flds ...string) bool {
+		pc := p.classifyPath(v)
+		if pc.kind != "seg" {
+			return false
+		}
+		for _, f := range flds {
+			if pc.fld == f {
+				return true
+			}
+		}
+		return false
+	}
+	var bad []string
+	n := 0
+	for _, fn := range p.Funcs {
+		if !srcFunc(fn) {
+			continue
+		}
+		for _, b := range fn.Blocks {
+			for _, ins := range b.Instrs {
+				switch x := ins.(type) {
+				case *ssa.Call:
+					nm := calleeName(x.Common())
+					if strings.HasPrefix(nm, "strings.") && len(x.Call.Args) == 2 {
+						n++
+						if isSeg(x.Call.Args[0], "Log", "Index") && isSeg(x.Call.Args[1], "Dir") {
+							bad = append(bad, fmt.Sprintf("%s: %s treats the segment's directory as a textual prefix of its file path", p.at(x), nm))
+						}
+					}
+				case *ssa.Slice:
+					if x.Low == nil || !isSeg(x.X, "Log", "Index") {
+						continue
+					}
+					n++
+					seen := map[ssa.Value]bool{}
+					var uses func(v ssa.Value, d int) bool
+					uses = func(v ssa.Value, d int) bool {
+						if v == nil || seen[v] || d > 4 {
+							return false
+						}
+						seen[v] = true
+						switch y := v.(type) {
+						case *ssa.BinOp:
+							return uses(y.X, d+1) || uses(y.Y, d+1)
+						case *ssa.Call:
+							return isBuiltinCall(y.Common(), "len") && len(y.Call.Args) == 1 && isSeg(y.Call.Args[0], "Dir")
+						}
+						return false
+					}
+					if uses(x.Low, 0) {
+						bad = append(bad, p.at(x)+": a segment's file path is cut at the length of its directory string")
+					}
+				}
+			}
+		}
+	}
+	if len(bad) > 0 {
+		ob.Pos = strings.SplitN(bad[0], ": ", 2)[0]
+		ob.Status, ob.Msg, ob.Path = Violated, "a file name is derived by cutting the segment's directory string off its path: for a directory given as ./data, a/../data or /x//data nothing matches, and the operation (a backup) fails or writes elsewhere", uniqSorted(bad)
+	} else {
+		ob.Status, ob.Msg = Discharged, fmt.Sprintf("%d string operation(s) on paths, none pairs a segment's file path with its directory string", n)
+	}
+	return []Ob{ob}
+}
